@@ -102,7 +102,7 @@ func (r ResponsesProps) MarshalJSON() ([]byte, error) {
 		toser["default"] = *r.Default
 	}
 	for k, v := range r.StatusCodeResponses {
-		toser[strconv.Itoa(k)] = v
+		toser[fmt.Sprintf("%03d", k)] = v // status codes are written with three digits, as the Swagger 2.0 schema requires
 	}
 	return json.Marshal(toser)
 }
